@@ -337,7 +337,7 @@ func callSafely(f func() error) (err error, panicked string) {
 
 func (libSim) Run(e *Env, ci interface{}) {
 	c := ci.(*LibCase)
-	if !c.Layout.Valid() || len(c.Ops) > 400 || c.Clock0 < 946684800 || c.Clock0 > math.MaxInt32 {
+	if !c.Layout.Valid() || len(c.Ops) > 400 || c.Clock0 < 946684800 || c.Clock0 > math.MaxUint32-3*400*86400 {
 		e.Skip("invalid-case")
 		return
 	}
